@@ -19,8 +19,15 @@ One part of the statement is FALSE of the code as it is and is kept as a `…_fu
 a refutation (`…_full_refuted`, replayed on the real code by harness/props/c08.py, KNOWN_FINDINGS.txt):
   * a source update whose resolved value is invalid for ONE linked parameter raises out of
     `_sync_refs` and leaves every later link of that object (and of the objects synced after it)
-    stale although the value is valid for them  → `linked_value_tracks_reference_partial` assumes
-    that no source update raised.
+    stale although the value is valid for them.  The theorem that holds
+    (`linked_value_tracks_reference_partial`) carries a ghost *stale set*: the source parameters
+    whose last value-changing assignment raised.  Every live link none of whose dependencies is
+    stale tracks its reference; a later successful, value-changing assignment to the source
+    parameter makes it fresh again ("invalid, then valid again" is covered).  Histories without a
+    raising source update have an empty stale set, i.e. the full statement.
+Everything structural — no watcher left behind, every dependency watched, refs a dict, constants
+referenced, only allow_refs parameters linked — is proved for ALL reachable worlds, raising source
+updates included.
 "keep no watcher on its behalf" holds in full since fix c44323d (a plain-value override goes through
 `_update_ref(name, Undefined)`): `old_sources_keep_no_watcher`.
 -/
@@ -43,18 +50,18 @@ def Exact (c : Cfg) (w : World) (t : Nat) : Prop :=
     ∃ tg q r, w.tgts[t]? = some tg ∧ (q, r) ∈ tg.refs ∧ (s, i) ∈ ldeps c t (q, r)
 
 /-- Worlds reachable by histories: sources exist, targets are constructed (with any keyword
-arguments: plain values and references of every kind), then any operations.  `strict`: no source
-update raised (from inside `_sync_refs`). -/
-inductive Reachable (c : Cfg) (strict : Bool) : World → Prop
-  | init (src : List (List Int)) : Reachable c strict { src := src, watch := src.map fun _ => [], tgts := [], stack := [] }
-  | construct {w w' : World} (dflt : List Val) (kws : List (Nat × Rhs)) : Reachable c strict w →
+arguments: plain values and references of every kind), then ANY operations with ANY outcome.  The
+index is the ghost stale set (`staleAfter`): a source update that raises (from inside `_sync_refs`)
+makes its parameter stale, one that succeeds with a new value makes it fresh again. -/
+inductive Reachable (c : Cfg) : List SrcP → World → Prop
+  | init (src : List (List Int)) : Reachable c [] { src := src, watch := src.map fun _ => [], tgts := [], stack := [] }
+  | construct {st : List SrcP} {w w' : World} (dflt : List Val) (kws : List (Nat × Rhs)) : Reachable c st w →
       (∀ ds, c.decls[w.tgts.length]? = some ds → ds.length ≤ dflt.length) →
-      construct c dflt kws w = (.ok, w') → Reachable c strict w'
-  | step {w : World} (op : Op) : Reachable c strict w →
-      (strict = true → ∀ s i v, op = .srcSet s i v → (step c op w).1 = .ok) →
-      Reachable c strict (step c op w).2.1
+      construct c dflt kws w = (.ok, w') → Reachable c st w'
+  | step {st : List SrcP} {w : World} (op : Op) : Reachable c st w →
+      Reachable c (staleAfter c op w st) (step c op w).2.1
 
-theorem reachable_inv {c : Cfg} {w : World} (h : Reachable c true w) : Inv c w := by
+theorem reachable_inv {c : Cfg} {st : List SrcP} {w : World} (h : Reachable c st w) : Inv c st w := by
   induction h with
   | init src =>
     exact ⟨fun t tg _ _ _ _ ht => by simp at ht, fun t tg _ _ _ _ ht => by simp at ht, fun t tg ht => by simp at ht,
@@ -65,38 +72,66 @@ theorem reachable_inv {c : Cfg} {w : World} (h : Reachable c true w) : Inv c w :
         | none => simp [h] at hws
         | some row => simp [h] at hws; subst hws; cases hm⟩
   | construct dflt kws _ hlen hc ih => exact construct_inv ih hlen hc
-  | step op _ hs ih => exact step_inv ih rfl (fun s i v e => hs rfl s i v e)
+  | step op _ ih => exact step_inv ih rfl
+
+/-- every live link none of whose dependencies is stale, that has a value to offer and whose resolved
+value is valid for its target: the target holds that value -/
+def TracksFresh (c : Cfg) (st : List SrcP) (w : World) : Prop :=
+  ∀ (t : Nat) (tg : Target) (p : Nat) (r : Rhs) (d : PDecl) (v : Val),
+    w.tgts[t]? = some tg → (p, r) ∈ tg.refs → c.decl t p = some d →
+    resolveRhs c w r d.nestedRefs = some v → skipsRhs c w r d.nestedRefs = false → d.valid v = true →
+    (∀ x ∈ ldeps c t (p, r), x ∉ st) → tg.read p = some v
 
 /-- **C08, the invariant.**  After *any* history of constructions with links, late links, relinks,
-overrides, `update`s, `update` contexts, class-level assignments and source updates — none of which
-raised from inside `_sync_refs` — every live link whose resolved value is valid for its target
-holds that value: for every reference kind, every nesting, every opaque bound function `F`. -/
-theorem linked_value_tracks_reference_partial (c : Cfg) (w : World) (h : Reachable c true w) : Tracks c w := by
-  intro t tg p r d v ht hm hd hres hsk hv
-  exact read_of_vals ((reachable_inv h).tracks t tg p r d v ht hm hd hres hsk hv)
+overrides, `update`s, `update` contexts, class-level assignments and source updates — with any
+outcomes, rejected assignments and raising source updates included — every live link that depends on
+no stale source parameter holds its reference's current resolved value whenever that value is valid
+for it: for every reference kind, every nesting, every opaque bound function `F`. -/
+theorem linked_value_tracks_reference_partial (c : Cfg) (st : List SrcP) (w : World) (h : Reachable c st w) :
+    TracksFresh c st w := by
+  intro t tg p r d v ht hm hd hres hsk hv hst
+  exact read_of_vals ((reachable_inv h).tracks t tg p r d v ht hm hd hres hsk hv hst)
 
-/-- … and every dependency of every live link carries the target's `_sync_refs` watcher, which is
-why the invariant survives the next source update. -/
-theorem linked_sources_are_watched (c : Cfg) (w : World) (h : Reachable c true w)
+/-- … in particular, as long as no source update has raised (or each one that did was followed by a
+successful value-changing assignment to the same source parameter), the statement holds in full. -/
+theorem linked_value_tracks_reference_when_nothing_stale (c : Cfg) (w : World) (h : Reachable c [] w) : Tracks c w :=
+  fun t tg p r d v ht hm hd hres hsk hv =>
+    linked_value_tracks_reference_partial c [] w h t tg p r d v ht hm hd hres hsk hv (fun _ _ hx => by cases hx)
+
+/-- a source parameter stops being stale as soon as an assignment to it succeeds with a new value, and
+becomes stale when one raises -/
+theorem stale_set_step (c : Cfg) (s i : Nat) (v : Int) (w : World) (st : List SrcP) :
+    ((step c (.srcSet s i v) w).1 = .ok → readSrc w (s, i) ≠ some v → (s, i) ∉ staleAfter c (.srcSet s i v) w st) ∧
+    (∀ e, (step c (.srcSet s i v) w).1 = .raised e → (s, i) ∈ staleAfter c (.srcSet s i v) w st) := by
+  constructor
+  · intro hok hne
+    simp [staleAfter, hok, hne]
+  · intro e he
+    simp [staleAfter, he]
+
+/-- … and every dependency of every live link carries the target's `_sync_refs` watcher — in every
+reachable world, raising source updates included — which is why the next source update reaches it. -/
+theorem linked_sources_are_watched (c : Cfg) (st : List SrcP) (w : World) (h : Reachable c st w)
     (t : Nat) (tg : Target) (p : Nat) (r : Rhs) (s i : Nat) (ht : w.tgts[t]? = some tg) (hm : (p, r) ∈ tg.refs)
     (hdep : (s, i) ∈ ldeps c t (p, r)) (hi : i < c.nsp) (hs : s < w.watch.length) :
     ∃ ws names, w.watch[s]? = some ws ∧ (t, names) ∈ ws ∧ i ∈ names :=
   (reachable_inv h).watched t tg p r s i ht hm hdep hi hs
 
-/-- the statement without the side condition on source updates -/
-def linked_value_tracks_reference_full : Prop := ∀ (c : Cfg) (w : World), Reachable c false w → Tracks c w
+/-- the statement without the stale set -/
+def linked_value_tracks_reference_full : Prop := ∀ (c : Cfg) (st : List SrcP) (w : World), Reachable c st w → Tracks c w
 
-/-- **C08, one step.**  The single-step form: any operation from a world satisfying the invariant
-(`Inv`: tracked, watched, refs is a dict, only `allow_refs` parameters linked, constants referenced)
-leads to one, whatever the operation's outcome — unless it is a source update that raised. -/
-theorem invariant_step (c : Cfg) (op : Op) (w : World) (hi : Inv c w)
-    (hs : ∀ s i v, op = .srcSet s i v → (step c op w).1 = .ok) : Inv c (step c op w).2.1 :=
-  step_inv hi rfl hs
+/-- **C08, one step.**  The single-step form: any operation, whatever its outcome, from a world
+satisfying the invariant (`Inv`: fresh links tracked, dependencies watched, no leftover watcher, refs
+a dict, only `allow_refs` parameters linked, constants referenced) leads to one, with the stale set
+updated by `staleAfter`. -/
+theorem invariant_step (c : Cfg) (op : Op) (st : List SrcP) (w : World) (hi : Inv c st w) :
+    Inv c (staleAfter c op w st) (step c op w).2.1 :=
+  step_inv hi rfl
 
 /-- **C08, override.**  An accepted plain-value assignment to a linked parameter leaves no link,
 and the parameter holds the assigned value. -/
 theorem override_removes_link (c : Cfg) (t p : Nat) (rhs : Rhs) (d : PDecl) (w w' : World) (log : List Entry)
-    (hi : Inv c w) (hd : c.decl t p = some d) (hplain : depsOf rhs d.nestedRefs = [])
+    (hi : Inv c st w) (hd : c.decl t p = some d) (hplain : depsOf rhs d.nestedRefs = [])
     (h : step c (.set t p rhs) w = (.ok, w', log)) :
     ∃ tg', w'.tgts[t]? = some tg' ∧ dictGet tg'.refs p = none ∧ tg'.read p = plainOf rhs := by
   unfold step at h
@@ -172,6 +207,48 @@ theorem override_removes_link (c : Cfg) (t p : Nat) (rhs : Rhs) (d : PDecl) (w w
           · simp at hs
         · simp at hs
 
+/-- **C08, relink.**  An accepted assignment of a reference (its current value valid for the
+parameter, which is neither constant nor readonly) makes that reference the link — replacing whatever
+link there was — and the parameter holds the resolved value; exactly one event is announced. -/
+theorem relink_installs_link (c : Cfg) (t p : Nat) (rhs : Rhs) (d : PDecl) (w : World) (tg : Target)
+    (old v : Val) (htg : w.tgts[t]? = some tg) (hd : c.decl t p = some d) (hread : tg.read p = some old)
+    (hsup : rhs.supported = true) (hallow : d.allowRefs = true) (href : (depsOf rhs d.nestedRefs).isEmpty = false)
+    (hres : resolveRhs c w rhs d.nestedRefs = some v) (hns : skipsRhs c w rhs d.nestedRefs = false)
+    (hvalid : d.valid v = true) (hro : d.readonly = false) (hconst : d.constant = false) :
+    ∃ w', step c (.set t p rhs) w = (.ok, w', [{ who := .tgt, idx := t, evs := [(p, v)] }]) ∧ w'.src = w.src ∧
+      ∃ tg', w'.tgts[t]? = some tg' ∧ (p, rhs) ∈ tg'.refs ∧ tg'.read p = some v ∧
+        ∀ q, q ≠ p → dictGet tg'.refs q = dictGet tg.refs q ∧ tg'.vals[q]? = tg.vals[q]? := by
+  obtain ⟨ds, hds⟩ := decls_of_decl hd
+  have hnp : ¬ p ≥ nparams c t := by
+    have : p < ds.length := by
+      rw [decl_of_decls hds] at hd
+      by_cases hlt : p < ds.length
+      · exact hlt
+      · exfalso; have : ds[p]? = none := by simp; omega
+        rw [this] at hd; cases hd
+    simp [nparams, hds]; exact this
+  have hlt : p < tg.vals.length := by
+    by_cases hlt : p < tg.vals.length
+    · exact hlt
+    · exfalso; have : tg.vals[p]? = none := by simp; omega
+      simp [Target.read, this] at hread
+  have hsupp : Op.supported c (.set t p rhs) = true := by
+    simp [Op.supported, keySupported, hd, hsup, hallow]
+  have hrfs : resolveForSet c d (dictGet tg.refs p).isSome rhs w = some (some v, .link rhs) := by
+    unfold resolveForSet; simp [hsup, hallow, href, hres]
+  have hsk : skipsForSet c d rhs w = false := by unfold skipsForSet; simp [hns]
+  have hset : setInst c t p rhs w = (.ok, applyRelink c t p (.link rhs) (store t p v w), [(p, v)]) := by
+    unfold setInst; simp only [htg, hd, hread, hrfs, hsk]
+    unfold setCore; simp [hvalid, hro, hconst]
+  refine ⟨applyRelink c t p (.link rhs) (store t p v w), by unfold step; simp [hsupp, hnp, hset], ?_⟩
+  have hget := fun t' x => tgts_set_get w.tgts t t' x tg htg
+  simp only [applyRelink, updateRef, store, htg, World.setTgt, hget, if_true, hds, List.set_set]
+  refine ⟨trivial, { tg with vals := tg.vals.set p (some v), refs := dictSet tg.refs p rhs }, ?_, mem_dictSet.2 (Or.inl rfl),
+    read_of_vals (by simp [hlt]), ?_⟩
+  · simp
+  · intro q hq
+    exact ⟨dictGet_dictSet_ne _ _ _ _ hq, by simp [List.getElem?_set_ne (fun e => hq e.symm)]⟩
+
 /-- **C08, a reference with no value to offer yet.**  Assigning a bound function whose evaluation
 raises `param.Skip` (so `_resolve_ref` yields `Undefined`) stores nothing, validates nothing and
 announces nothing — but it *is* the new link: refs names it, and by `invariant_step` the old
@@ -209,7 +286,7 @@ theorem skipping_reference_becomes_the_link (c : Cfg) (t p : Nat) (rhs : Rhs) (d
 alone every parameter whose *current* link does not depend on the updated source parameter: an
 overridden parameter (no link at all) and a relinked one (its old sources).  Links are untouched. -/
 theorem source_update_reaches_only_dependent_links (c : Cfg) (s i : Nat) (v : Int) (w w' : World) (res : Res)
-    (log : List Entry) (hi : Inv c w) (t p : Nat) (tg : Target) (htg : w.tgts[t]? = some tg)
+    (log : List Entry) (hi : Inv c st w) (t p : Nat) (tg : Target) (htg : w.tgts[t]? = some tg)
     (hnodep : ∀ r, (p, r) ∈ tg.refs → (s, i) ∉ ldeps c t (p, r))
     (h : step c (.srcSet s i v) w = (res, w', log)) :
     ∃ tg', w'.tgts[t]? = some tg' ∧ tg'.refs = tg.refs ∧ tg'.vals[p]? = tg.vals[p]? ∧ tg'.dflt = tg.dflt := by
@@ -255,16 +332,17 @@ theorem override_ends_link_for_good (c : Cfg) (t p : Nat) : ∀ (ups : List (Nat
 object sit *exactly* on the dependencies of its live links: after a relink and after a plain-value
 override alike (both go through `_update_ref`, which unwatches everything and re-installs the
 watchers of the links that remain), the sources of the replaced link keep no watcher on its behalf
-— unless another live link of the same object still depends on them. -/
-theorem old_sources_keep_no_watcher (c : Cfg) (w : World) (h : Reachable c true w) (t : Nat) : Exact c w t :=
+— unless another live link of the same object still depends on them.  (All histories: rejected
+assignments and raising source updates included.) -/
+theorem old_sources_keep_no_watcher (c : Cfg) (st : List SrcP) (w : World) (h : Reachable c st w) (t : Nat) : Exact c w t :=
   fun s ws names i hws hm hin => (reachable_inv h).exact t s ws names i hws hm hin
 
 /-- … in single-step form: whatever is assigned to `t.p` (plain value or reference) and however the
 assignment ends, afterwards t's watchers are exact. -/
-theorem old_sources_keep_no_watcher_step (c : Cfg) (t p : Nat) (rhs : Rhs) (w : World) (hi : Inv c w) :
+theorem old_sources_keep_no_watcher_step (c : Cfg) (st : List SrcP) (t p : Nat) (rhs : Rhs) (w : World) (hi : Inv c st w) :
     Exact c (step c (.set t p rhs) w).2.1 t :=
   fun s ws names i hws hm hin =>
-    (step_inv hi (rfl : step c (.set t p rhs) w = _) (fun _ _ _ e => by cases e)).exact t s ws names i hws hm hin
+    (step_inv hi (rfl : step c (.set t p rhs) w = _)).exact t s ws names i hws hm hin
 
 /-- **C08, the other links.**  Whatever is assigned to `t.p` and however the assignment ends,
 every other parameter of t keeps its link and its value, every other object is untouched and no
@@ -328,12 +406,12 @@ def d1 : PDecl := { kind := .int, lo := none, hi := none, constant := false, rea
 theorem hlen0 (w : World) (hw : w.tgts.length = 0) : ∀ ds, c.decls[w.tgts.length]? = some ds → ds.length ≤ dflt.length := by
   intro ds h; rw [hw] at h; simp [c] at h; subst h; decide
 
-theorem w1_reachable (strict : Bool) : Reachable c strict w1 :=
+theorem w1_reachable : Reachable c [] w1 :=
   .construct dflt kws1 (.init [[1, 2], [3, 4]]) (hlen0 _ rfl) (by decide)
 
 /-- a reachable world with three live links of three kinds: the invariant theorem is not vacuous -/
-example : Reachable c true w1 ∧ w1.tgts.map (·.refs.length) = [3] ∧
-    w1.tgts.map (·.vals) = [[some (.int 1), some (.int 1), some (.tup [1, 4])]] := ⟨w1_reachable true, by decide, by decide⟩
+example : Reachable c [] w1 ∧ w1.tgts.map (·.refs.length) = [3] ∧
+    w1.tgts.map (·.vals) = [[some (.int 1), some (.int 1), some (.tup [1, 4])]] := ⟨w1_reachable, by decide, by decide⟩
 
 /-- an ordinary source update propagates into all three -/
 example : (step c (.srcSet 0 0 5) w1).1 = .ok ∧
@@ -348,11 +426,17 @@ example : (step c (.srcSet 0 0 50) w1).1 = .raised .value ∧
 
 theorem linked_value_tracks_reference_full_refuted : ¬ linked_value_tracks_reference_full := by
   intro hfull
-  have hr : Reachable c false w2 := .step _ (w1_reachable false) (fun h => by cases h)
-  have := hfull c w2 hr 0 ⟨[some (.int 1), some (.int 1), some (.tup [1, 4])], dflt,
+  have hr : Reachable c (staleAfter c (.srcSet 0 0 50) w1 []) w2 := .step _ w1_reachable
+  have := hfull c _ w2 hr 0 ⟨[some (.int 1), some (.int 1), some (.tup [1, 4])], dflt,
       [(0, .atom (.par 0 0)), (1, .atom (.par 0 0)), (2, .cont [.par 0 0, .fn [(1, 1)] 0 false none])]⟩
     1 (.atom (.par 0 0)) d1 (.int 50) (by decide) (by decide) (by decide) (by decide) (by decide) (by decide)
   revert this; decide
+
+/-- the raising update made S0.v0 stale; the next successful one (7 is valid for everybody) makes it fresh
+again and every link holds the current value: "invalid, then valid again" -/
+example : staleAfter c (.srcSet 0 0 50) w1 [] = [(0, 0)] ∧
+    staleAfter c (.srcSet 0 0 7) w2 [(0, 0)] = [] ∧
+    (step c (.srcSet 0 0 7) w2).2.1.tgts.map (·.vals) = [[some (.int 7), some (.int 7), some (.tup [7, 4])]] := by decide
 
 /-- `t.p0 = 5` (plain) on `T0(p0=S0.param.v0)`: the link is gone and so is the watcher on S0.v0 -/
 def v1 : World := (construct c dflt [(0, .atom (.par 0 0))] init).2
